@@ -81,14 +81,110 @@ def minimise(line, still):
     return mk(edits, qs)
 
 
+# ---------------------------------------------------------------- program level: stack traces
+
+def gen_chain(rng, mod):
+    """A call chain main -> m1 -> ... -> mk whose last link throws; the generator lays out the
+    source, so it knows every frame's line. Returns (source, expected frames [(fn, line, tco)])."""
+    n = rng.randint(1, 7)
+    lines = [f"module {mod}"]
+    frames = []          # expected, outermost first (after the file frame)
+    kinds = [rng.choice(["plain", "plain", "tail", "closure", "async"]) for _ in range(n)]
+    kinds[-1] = "throw"
+    pending_tco = 0
+    for i, k in enumerate(kinds):
+        name = f"m{i}"
+        nxt = f"m{i + 1}(x)"
+        hdr = f"  async def {name}(x: Int): Int" if (i > 0 and kinds[i - 1] == "async") else f"  def {name}(x: Int): Int"
+        lines.append(hdr)
+        for _ in range(rng.randint(0, 2)):
+            lines.append(rng.choice(["    # filler", "    var pad%d = x + %d" % (len(lines), rng.randint(1, 9)), ""]))
+        if k == "throw":
+            if rng.random() < 0.5:
+                lines.append('    throw unchecked "boom" if x > 0')
+            else:
+                lines.append("    var q = 10 / (x - 1)")
+            frames.append((f"{mod}::{name}", len(lines), pending_tco))
+            pending_tco = 0
+            lines.append("    x")
+        elif k == "plain":
+            lines.append(f"    {rng.randint(1, 5)} + {nxt}")
+            frames.append((f"{mod}::{name}", len(lines), pending_tco))
+            pending_tco = 0
+        elif k == "async":
+            lines.append(f"    1 + await {nxt}")
+            frames.append((f"{mod}::{name}", len(lines), pending_tco))
+            pending_tco = 0
+        elif k == "tail":
+            lines.append(f"    {nxt}")
+            pending_tco += 1      # the frame is reused by the callee
+        elif k == "closure":
+            lines.append("    var f = |y: Int|: Int ->")
+            lines.append(f"      {rng.randint(1, 5)} + m{i + 1}(y)")
+            inner = len(lines)
+            lines.append("    end")
+            lines.append("    2 + f.call(x)")
+            frames.append((f"{mod}::{name}", len(lines), pending_tco))
+            frames.append(("<closure>", inner, 0))
+            pending_tco = 0
+        lines.append("  end")
+    lines.append("end")
+    for _ in range(rng.randint(0, 3)):
+        lines.append("# top filler")
+    lines.append(f"println({mod}.m0(1).inspect)")
+    top_line = len(lines)
+    return "\n".join(lines) + "\n", top_line, frames
+
+
+GEN_FINDING = ("module KfC32\n  def a(x: Int): Int\n    var s = 0\n    for v in g(x)\n      s += v\n    end\n    s\n  end\n"
+               "  def *g(x: Int): Int\n    yield 1\n    1 + c(x)\n  end\n  def c(x: Int): Int\n    throw unchecked \"boom\" if x > 0\n    x\n  end\nend\n"
+               "println(KfC32.a(1).inspect)\n",
+               18, [("KfC32::a", 4, 0), ("KfC32::g", 11, 0), ("KfC32::c", 14, 0)])
+
+
+def trace_check(ctx):
+    n = ctx.n(150, 5000)
+    cases = [gen_chain(ctx.rng, f"S{ctx.seed}x{i}") for i in range(n)] + [GEN_FINDING]
+    res = vlib.run_programs([{"id": f"t{i}", "src": c[0], "name": f"/tmp/t{i}.elk", "timeout_ms": 6000} for i, c in enumerate(cases)])
+    ok = True
+    reported = 0
+    for i, ((src, top, frames), a) in enumerate(zip(cases, res)):
+        want = [(f"/tmp/t{i}.elk", top, 0)] + frames
+        got = [(f["fn"], f["line"], f["tco"]) for f in (a.get("trace") or [])]
+        ctx.case(("trace", src), nontrivial=len(frames) >= 2,
+                 sample={"program": src[:500], "expected_frames": want})
+        ctx.stat("trace:outcome:" + a["outcome"])
+        ctx.stat("trace:chain-length:%d" % len(frames))
+        if a["outcome"] == "error" and got == want:
+            continue
+        if reported >= 3:
+            ok = False
+            continue
+        reported += 1
+        new = ctx.violation("trace-differs", {"program": src},
+                            f"outcome {a['outcome']} {a.get('err_class')} {a.get('panic')}; expected frames {want}; printed frames {got}")
+        if new:
+            ok = False
+        else:
+            reported -= 1
+    ctx.obligation(f"stack traces of {len(cases)} generated call chains list exactly the active frames with their lines", ok, "correspondence")
+
+
 def run(ctx):
     ctx.rule = ("edit scripts over LineInfoList (add/addLast/removeByte/removeBytes/prepLocals/removeBytes@offset) "
                 "with GetLineNumber queries; distinct = distinct script; non-trivial = at least one edit")
     ctx.prove("ElkVerif.Props.C32")
     if ctx.replay:
         import json
-        lines = [json.load(open(ctx.replay))["input"]["line"]]
+        inp = json.load(open(ctx.replay))["input"]
+        if "program" in inp:
+            a = vlib.run_programs([{"id": "r", "src": inp["program"]}])[0]
+            print("replayed program; outcome", a["outcome"], "frames", a.get("trace"))
+            return
+        lines = [inp["line"]]
     else:
         n = ctx.n(3000, 100000)
         lines = vlib.corpus_lines("C32") + [gen_script(ctx.rng, i % 2 == 0) for i in range(n)]
     vlib.correspond(ctx, lines, oracle=oracle, minimise=minimise, label="LineInfoList")
+    if not ctx.replay:
+        trace_check(ctx)
